@@ -3,7 +3,8 @@
    assert_unreachable, le ge sle sge ne ceil32, select), tied to vyper/ir/compile_ir.py by exact output equality on
    seeded random trees; the opcode tables are regenerated from the source (GenUtils.v). *)
 From Coq Require Import ZArith List String Lia.
-From Verif Require Import Base.Word256 Base.PyInt C15.Syntax C15.GenUtils C15.Peephole C15.Lower C15.LowerSound C15.LowerFlow C15.FlowSound C15.RetRewrite C15.RetRewriteSound.
+From Verif Require Import Base.Word256 Base.PyInt C15.Syntax C15.GenUtils C15.Peephole C15.Lower C15.LowerSound C15.LowerFlow C15.FlowSound C15.RetRewrite C15.RetRewriteSound C15.StmtSound.
+From Verif Require C15.OptTree C15.MergeSound C15.PropsOpt.
 Import ListNotations.
 Open Scope Z_scope.
 
@@ -13,7 +14,7 @@ Open Scope Z_scope.
    of the expression and leaves the rest of the stack unchanged. *)
 Theorem lower_sound :
   forall f wa bd h e s code s' pf en stk v,
-    lower f wa bd h e s = Ok (code, s') -> aligned stk h wa en -> List.length stk = h ->
+    lower f wa bd h e s = Ok (code, s') -> LowerSound.aligned stk h wa en -> List.length stk = h ->
     peval pf en e = Some v -> runs code stk (v :: stk).
 Proof. exact lower_pure_sound. Qed.
 Print Assumptions lower_sound.
@@ -142,3 +143,44 @@ Proof.
   - intros. eapply exit_return_sound; eauto.
 Qed.
 Print Assumptions return_sequence_exit_sound.
+
+(* Value-level soundness of the lowering for the non-loop statement fragment (StmtSound.v), against the SAME meaning
+   `eval` that the optimiser theorems use.  Fragment (frag): literals, with-variables of an enclosing scope, the 24 binary
+   operators, iszero / not / ceil32, every EVM opcode node Syntax.v leaves uninterpreted (mstore sstore mload sload log
+   call return revert ...; operands from the fragment), seq, if (2/3), assert, assert_unreachable, pass.  Machine: small
+   steps over the whole assembly (pc, stack of words / label references, store); an uninterpreted opcode pops its
+   operands and applies `opsem` to the store.  StmtOk: Syntax.v's sem_K of an opcode node = operands last-to-first, then
+   opsem on their values; opsem leaves the variable part of the state alone; REVERT 0 0 / INVALID are the failed-assert
+   observations.  For code placed anywhere in a program P with distinct labels (and the shared revert block present when
+   an assert was lowered), from a stack whose with-variables sit where the lowerer assumes:
+     eval e st = Norm v st'  =>  the machine reaches the end of the code with store st' and the value pushed (iff valency 1)
+                                on the otherwise unchanged stack -- every effect once, in order, untaken branches nothing;
+     eval e st = Halt h      =>  the machine halts with observation h.
+   `with` / `set` are outside: Syntax.v gives them no fixed meaning (see StmtSound.v). *)
+Theorem lower_stmt_sound :
+  forall (M : Sem) (opsem : string -> list Z -> St M -> outcome (St M) (Hl M)), StmtOk M opsem ->
+  forall f wa h e s code s', lower f wa None h e s = Ok (code, s') -> frag e -> rinv s ->
+    mono s s' /\ rinv s' /\
+    forall P pc, At P pc code -> NoDup (lbls P) -> (forall l, In (l, None) (lh s') -> RevBlock P l) ->
+    forall stk st, StmtSound.aligned M stk h wa st -> List.length stk = h ->
+      Reach M opsem P (pc, stk, st) (eval M e st) (Tgt M pc (List.length code) stk (Nat.eqb (valency e) 1)).
+Proof. intros M opsem OK f wa. exact (lower_stmt_ok M opsem OK f wa). Qed.
+Print Assumptions lower_stmt_sound.
+
+(* optimiser soundness composed with lowering soundness: running the assembly of the OPTIMISED tree realises the meaning
+   of the ORIGINAL tree (value, store, halting observation) *)
+Theorem opt_then_lower_sound :
+  forall (M : Sem) (opsem : string -> list Z -> St M -> outcome (St M) (Hl M)), SemOk M -> MergeSound.MemOk M -> StmtOk M opsem ->
+  forall cancun e e', wf e -> OptTree.optimize cancun e = Ok e' -> frag e' ->
+  forall f wa h s code s', lower f wa None h e' s = Ok (code, s') -> rinv s ->
+    forall P pc, At P pc code -> NoDup (lbls P) -> (forall l, In (l, None) (lh s') -> RevBlock P l) ->
+    forall stk st, StmtSound.aligned M stk h wa st -> List.length stk = h ->
+      Reach M opsem P (pc, stk, st) (eval M e st) (Tgt M pc (List.length code) stk (Nat.eqb (valency e') 1)).
+Proof.
+  intros M opsem SO MO OK cancun e e' W OPT FR f wa h s code s' L R P pc A ND RB stk st AL LN.
+  destruct (PropsOpt.optimize_sound M SO MO cancun e e' W OPT) as [EQ _]. rewrite (EQ st).
+  destruct (lower_stmt_ok M opsem OK f wa h e' s code s' L FR R) as (_ & _ & S). apply S; assumption.
+Qed.
+Print Assumptions opt_then_lower_sound.
+Example stmt_hypotheses_satisfiable : StmtOk TrSem tr_ops.
+Proof. exact stmt_ok_satisfiable. Qed.
